@@ -4,7 +4,8 @@ Require Import GSE.model.Base GSE.model.Types GSE.model.Ext GSE.model.Encap GSE.
   GSE.proofs.MemoryLemmas GSE.proofs.DecapBase GSE.proofs.DecapSpec GSE.proofs.DecapProps GSE.proofs.LabelSync.
 Open Scope N_scope.
 
-(* Lock step, unbounded histories: any mix of encap calls (any label including an explicitly passed re-use label,
+(* Lock step, unbounded histories: any mix of encap and encap_ext calls (any label, any extension chain built by
+   Extension::new, any manager at the receiver; any label including an explicitly passed re-use label,
    any buffer: the call may fail, produce a complete packet or a first fragment), continuation packets, resets at the
    same frame boundaries on both sides, changes of the re-use settings, storage management at the receiver. Every
    packet encap reports as produced is fed to the receiver. Whenever the receiver answers a start/complete packet
